@@ -175,6 +175,18 @@ class C04(TraceCheck):
                             yield {"h": h, "w": w, "fmt": (r0 + nrows) % 2, "steps": pre + [
                                 {"k": "assign", "r0": r0, "r1": r0 + nrows, "c0": c0, "c1": c1, "block": [], "bk": "self", "form": "slice2"},
                                 {"k": "read", "r0": 0, "r1": 3 * h + 3, "c0": 0, "c1": w}]}
+        # single cells and one-column regions spelled with negative ints (a[r, -1], a[-1, c], a[r0:r1, -1]) on blank rows and
+        # on rows that already show something, every column incl. the last
+        for (h, w) in ((2, 3), (1, 1), (3, 4)):
+            for pre in ([], [{"k": "assign", "r0": 0, "r1": h, "c0": 0, "c1": w, "block": [srow("p" * w)] * h, "bk": "list", "form": "slice2"}],
+                        [{"k": "assign", "r0": 0, "r1": 1, "c0": 0, "c1": 1, "block": [srow("q")], "bk": "list", "form": "slice2"}]):
+                for r in range(h):
+                    for c in range(w):
+                        rd = {"k": "read", "r0": 0, "r1": h, "c0": 0, "c1": w}
+                        yield {"h": h, "w": w, "fmt": (r + c) % 2, "steps": pre + [
+                            {"k": "assign", "r0": r, "r1": r + 1, "c0": c, "c1": c + 1, "block": [srow("z")], "bk": "list", "form": "cellneg", "negr": (r + c) % 2}, rd]}
+                        yield {"h": h, "w": w, "fmt": 0, "steps": pre + [
+                            {"k": "assign", "r0": 0, "r1": h, "c0": c, "c1": c + 1, "block": [srow("y")] * h, "bk": "list", "form": "colint", "negc": (r + 1) % 2}, rd]}
         # ONE block object kept by the application (a list of rows / an FSArray), updated in place and assigned again to
         # the same region - the second time with other rows, a too long row, another number of rows; also with another
         # assignment or a read in between, and to another region
@@ -362,6 +374,15 @@ class C04(TraceCheck):
                   with _time_limit(4):
                     if st["form"] == "cell":
                         a[st["r0"], st["c0"]] = block
+                    elif st["form"] == "cellneg":
+                        # the same cell spelled with negative ints (counted from the end), where that is possible
+                        r = st["r0"] - len(a.rows) if st["r0"] < len(a.rows) and st.get("negr", 1) else st["r0"]
+                        c = st["c0"] - a.width if st["c0"] < a.width else st["c0"]
+                        a[r, c] = block
+                    elif st["form"] == "colint":
+                        # rows as a slice, the column as a plain (possibly negative) int
+                        c = st["c0"] - a.width if st["c0"] < a.width and st.get("negc", 1) else st["c0"]
+                        a[st["r0"]:st["r1"], c] = block
                     elif st["form"] == "rows":
                         a[spelt(st["r0"], st["r1"], len(a.rows), st.get("sp", 0))] = block
                     else:
